@@ -45,7 +45,16 @@ def roundRatio (num den : Nat) : Option (Nat × Bool) :=
   else if eo2 + 1 > 2046 then none
   else some ((eo2 + 1) * 2 ^ 52 + (q2 - 2 ^ 52), erange)
 
-def strtod (s : List Char) : Res :=
+/-- the decimal number `strtod` recognises at the start of the string: sign, all digits as
+one natural number `m`, the power of ten `e10` (value = ±m·10^e10) and the number of
+significant digits. -/
+inductive Dec where
+  | num (neg : Bool) (m : Nat) (e10 : Int) (nd : Nat)
+  | noConv
+  | unsupported
+  deriving DecidableEq, Repr
+
+def parseDec (s : List Char) : Dec :=
   let s1 := s.dropWhile isSp
   let neg := s1.head? = some '-'
   let s2 := if s1.head? = some '-' ∨ s1.head? = some '+' then s1.drop 1 else s1
@@ -69,26 +78,33 @@ def strtod (s : List Char) : Res :=
           let ed := r2.takeWhile isDig
           if ed = [] then 0
           else
-            -- cap: beyond ±100000 nothing changes
+            -- cap: beyond ±1000000 nothing changes
             let v := dval (ed.dropWhile (· = '0'))
             let v' := if (ed.dropWhile (· = '0')).length > 6 then 1000000 else v
             if eneg then -(v' : Int) else (v' : Int)
         else 0
       | [] => 0
-    let m := dval (ip ++ fp)
-    let sign : Nat := if neg then 2 ^ 63 else 0
-    if m = 0 then .bits sign
+    .num neg (dval (ip ++ fp)) (ex - fp.length) ((ip ++ fp).dropWhile (· = '0')).length
+
+/-- correctly rounded binary64 of ±m·10^e10. -/
+def ofDec (neg : Bool) (m : Nat) (e10 : Int) (nd : Nat) : Res :=
+  let sign : Nat := if neg then 2 ^ 63 else 0
+  if m = 0 then .bits sign
+  else
+    if e10 + nd > 400 then .overflow neg
+    else if e10 + nd < -400 then .bits sign true
     else
-      let e10 : Int := ex - fp.length
-      let nd : Int := ((ip ++ fp).dropWhile (· = '0')).length
-      if e10 + nd > 400 then .overflow neg
-      else if e10 + nd < -400 then .bits sign true
-      else
-        let r := if 0 ≤ e10 then roundRatio (m * 10 ^ e10.toNat) 1
-                 else roundRatio m (10 ^ (-e10).toNat)
-        match r with
-        | none => .overflow neg
-        | some (b, er) => .bits (sign + b) er
+      let r := if 0 ≤ e10 then roundRatio (m * 10 ^ e10.toNat) 1
+               else roundRatio m (10 ^ (-e10).toNat)
+      match r with
+      | none => .overflow neg
+      | some (b, er) => .bits (sign + b) er
+
+def strtod (s : List Char) : Res :=
+  match parseDec s with
+  | .num neg m e10 nd => ofDec neg m e10 nd
+  | .noConv => .noConv
+  | .unsupported => .unsupported
 
 /-- `(float) d` for a finite binary64 pattern: round to nearest even, overflow to ±inf. -/
 def toFloat32 (b : Nat) : Nat :=
